@@ -124,13 +124,16 @@ pub struct RunCfg {
     pub watchdog:  Duration,
     /// record the (step, tid, site) trace (SER)
     pub trace:     bool,
+    /// SER: reaching the step cap while exactly one thread is runnable and every other thread has finished is a stall of that thread (an operation that
+    /// does not complete in a bounded number of its own steps although nobody else exists who could help) instead of an inconclusive run
+    pub lone_thread_step_cap_is_stall: bool,
 }
 impl RunCfg {
     pub fn ser(seed: u64, strategy: Strategy) -> Self {
-        Self { lane: Lane::Ser, seed, strategy, max_steps: 200_000, stall_k: 600, chaos: 0, watchdog: Duration::from_secs(30), trace: false }
+        Self { lane: Lane::Ser, seed, strategy, max_steps: 200_000, stall_k: 600, chaos: 0, watchdog: Duration::from_secs(30), trace: false, lone_thread_step_cap_is_stall: false }
     }
     pub fn free(seed: u64, chaos: u8) -> Self {
-        Self { lane: Lane::Free, seed, strategy: Strategy::Random { p_pct: 0 }, max_steps: u64::MAX, stall_k: 0, chaos, watchdog: Duration::from_secs(30), trace: false }
+        Self { lane: Lane::Free, seed, strategy: Strategy::Random { p_pct: 0 }, max_steps: u64::MAX, stall_k: 0, chaos, watchdog: Duration::from_secs(30), trace: false, lone_thread_step_cap_is_stall: false }
     }
 }
 
@@ -536,7 +539,9 @@ impl Shared {
         // somebody completed an operation: whatever the others are waiting for at harness level may have become true
         if site == H_OP { for t in st.th.iter_mut() { t.h_streak = 0 } }
         if st.step > st.cfg.max_steps {
-            self.do_abort(&mut st, Outcome::StepCap);
+            let lone = st.cfg.lone_thread_step_cap_is_stall && st.th.iter().enumerate().all(|(i, t)| if i == tid { t.status == Status::Runnable } else { t.status == Status::Finished });
+            let outcome = if lone { Outcome::Stall { spinners: vec![(tid, site)], gated: Vec::new() } } else { Outcome::StepCap };
+            self.do_abort(&mut st, outcome);
             self.freeze(st, tid);
         }
         // targeted pause
